@@ -17,6 +17,7 @@ type Violation struct {
 }
 
 type RunOut struct {
+	prop       string
 	Violations []Violation
 	Discard    string // non-empty: the run is not judged (reason)
 	Nontrivial bool
@@ -77,6 +78,10 @@ func (o *RunOut) collect(s *Sim) {
 			o.Discard = "ambiguous_select"
 		}
 	}
+	for _, p := range s.Panics {
+		o.Stats["task_panics"]++
+		o.Violations = append(o.Violations, Violation{Clause: o.prop + ".panic", Sig: normPanic(p), Detail: "a goroutine evaluating lisp code panicked (this ends the embedding process): " + p})
+	}
 	if s.Leaked > 0 {
 		o.Stats["leaked_tasks"] += int64(s.Leaked)
 	}
@@ -119,4 +124,20 @@ func runOne(t *testing.T, p Property, tp *Tape, opt RunOpt) (out *RunOut) {
 		out.Violations = append(out.Violations, Violation{Clause: p.ID() + "." + cl, Sig: sig, Detail: out.RaceText})
 	}
 	return out
+}
+
+// normPanic strips addresses and numbers from a panic message so that it can serve as a signature.
+func normPanic(p string) string {
+	var b strings.Builder
+	for _, r := range p {
+		if r >= '0' && r <= '9' {
+			continue
+		}
+		b.WriteRune(r)
+	}
+	s := b.String()
+	if len(s) > 80 {
+		s = s[:80]
+	}
+	return s
 }
